@@ -40,6 +40,19 @@ Theorem C15_wrap : forall e d, e < 8589934592 -> d <= 4294967296 ->
 Proof. exact c15_wrap. Qed.
 Print Assumptions C15_wrap.
 
+(* ... and only then: over ALL pairs of in-range timestamps the answer is true exactly when `self` is `since` advanced by
+   some 1..=2^32 ticks modulo 2^33 with the sum passing 2^33 (so no pair outside C15_wrap's parametrisation answers true) *)
+Theorem C15_wrap_pairs : forall self since, self < 8589934592 -> since < 8589934592 ->
+  ts_likely_wrapped_since self since = true <->
+  exists d, 0 < d /\ d <= 4294967296 /\ 8589934592 <= since + d /\ self = (since + d) mod 8589934592.
+Proof. exact c15_wrap_pairs. Qed.
+Print Assumptions C15_wrap_pairs.
+
+(* two timestamps are never each "wrapped since" the other *)
+Theorem C15_wrap_antisym : forall a b, ts_likely_wrapped_since a b = true -> ts_likely_wrapped_since b a = false.
+Proof. exact c15_wrap_antisym. Qed.
+Print Assumptions C15_wrap_antisym.
+
 (* clock references: from_parts refuses out-of-range parts *)
 Theorem C15_clockref_from_parts : forall base ext,
   clockref_from_parts base ext =
